@@ -436,6 +436,10 @@ func (g *gen) pathItem(doc string, ord int) map[string]interface{} {
 			rs["500"] = g.resp(doc, -1)
 			rs["201"] = g.resp(doc, -1)
 		}
+		if g.r.Intn(5) == 0 {
+			g.uniq++
+			rs["x-Resp-Note"] = fmt.Sprintf("n%d", g.uniq) // vendor extension of the responses object
+		}
 		op["responses"] = rs
 		pi[opn] = g.ext(op)
 	}
@@ -641,6 +645,10 @@ func Generate(r *sim.RNG, cfg Cfg) *model.World {
 		m := map[string]interface{}{}
 		for _, n := range s.paths {
 			m[n] = g.pathItem(u, find(model.KPathItem, u, "/paths/"+model.Esc(n)))
+		}
+		if g.r.Intn(4) == 0 {
+			g.uniq++
+			m["x-Paths-Note"] = map[string]interface{}{"k": float64(g.uniq)} // vendor extension of the paths object
 		}
 		doc["paths"] = m
 		w.Docs[u] = doc
